@@ -40,6 +40,13 @@ THEOREMS = [
     'Nb.C19.mgh_zooms_roundtrip',
     'Nb.C19.mgh_file_roundtrip',
     'Nb.C19.mgh_save_load_roundtrip',
+    'Nb.C19.mgh_resave_roundtrip',
+    'Nb.C19.readMghX_refines',
+    'Nb.C19.pack_rgb_generated',
+    'Nb.C19.morph_writer_limits_generated',
+    'Nb.C19.annot_unsigned_labels_witness',
+    'Nb.C19.annot_fix_proposal_conservative',
+    'Nb.C19.gen_constants_consistent_wave3',
     'Nb.C19.gen_constants_consistent',
 ]
 ASSUMPTIONS = [
@@ -63,6 +70,15 @@ ASSUMPTIONS = [
     'mghload: file bytes laid out by the harness (struct) are read by MGHHeader.from_fileobj + data_from_fileobj and '
     'by the model readMgh (goodRASFlag 0, partial/absent footer, trailing tags, bad version/type/dims, short files); '
     'dims >= 2^31 (negative int32) are not generated',
+    'mgh-resave: load -> [set_zooms keeping the voxel sizes] -> footer assignments -> save -> load is modelled by '
+    'mghResave (readMghX/writeMghX carry dof and goodRASFlag verbatim); update_header leaves delta/Mdc/Pxyz_c alone '
+    'because the image affine IS the header affine (np.allclose on finite values: generated Mdc/Pxyz_c/delta are finite '
+    'and moderate); a set_zooms that changes the voxel sizes (float re-derivation from the affine) is outside the model',
+    'write_annot with an unsigned label dtype is modelled by writeAnnotUnsigned (np.max(labels, initial=-1) raises '
+    'OverflowError under NumPy >= 2); input dtypes/containers of the writers (float16/32/64/long double/integer '
+    'coordinates and morph values, every integer face/label/table dtype, list/tuple/bytes/object-array names, '
+    'plain dict / list-valued / int32-float32 volume_info) are exercised by the generators; the model speaks about the '
+    'logical values',
     'old-format inputs (quad surfaces, old morph files, old colour tables), truncated files and counts >= 2^31/3 '
     'are outside the model (never written by the library / not generable)',
     'Generated/C19.lean is extracted by regen() from the working tree (AST constants of io.py, np.dtype of the MGH '
@@ -81,10 +97,22 @@ RULE = ('streams: geom (0..n vertices, 0..m faces, float32 bit patterns incl. su
         'mghload (reader on hand-laid files: goodRASFlag 0/odd, partial footer, trailing bytes, bad version/type/dims, '
         'truncation); volume_info floats: 10-digit decimals, float32 values with 8-9 significant digits (oblique '
         'cosines, off-centre c_ras), full doubles; mgh-edge '
-        '(zero dims, 5-D, unsupported dtypes, invalid zooms); zoom (bare header set_data_shape/set_zooms). '
+        '(zero dims, 5-D, unsupported dtypes, invalid zooms); zoom (bare header set_data_shape/set_zooms); '
+        'mgh-resave (history: a hand-laid well-formed file with random dof / goodRASFlag 0,1,2,255,.. / all five footer '
+        'fields / partial footer / trailing tags is LOADED (mmap on/off, data touched or not, .mgh/.mgz), optionally '
+        'set_zooms + footer assignments, SAVED to another file or over the source (.mgh/.mgz) and loaded again); '
+        'writer input dtypes: coords/morph f2/f4/f8/longdouble/int, faces i1..i8/u1..u8, labels i1..i8/u1..u8, tables '
+        'i1/u1/i2/u2/i4/u4/i8/u8/f4/f8, names list/tuple/bytes/mixed/object array, volume_info OrderedDict/dict/lists/'
+        'int32+float32, morph values as nested lists. '
         'A case is non-trivial when it carries at least one vertex/value/voxel; distinct by sha1 of its data.')
 
 PENDING_FINDINGS = [
+    {'property': 'C19', 'signature': 'annot:unsigned-labels-overflow', 'status': 'open',
+     'what': 'write_annot with a label array of an unsigned integer dtype (uint8/16/32/64, all vertices labelled) raises '
+             'OverflowError under NumPy 2: np.max(labels, initial=-1) - the repair of the zero-vertex case - cannot '
+             'represent -1 in the labels dtype',
+     'input': {'op': 'annot', 'orig': False, 'fill': True, 'ncol': 4, 'labels': [0], 'ctab': [[1, 0, 0, 0]],
+               'names': ['a'], 'dt_l': 'u1'}},
     {'property': 'C19', 'signature': 'annot:zero-packed-rgb-referenced', 'status': 'open',
      'what': 'a vertex labelled with a colour-table entry whose packed RGB annotation value is 0 reads back as -1 '
              '(write_annot/read_annot; .annot format uses 0 for "unlabeled")',
@@ -106,7 +134,7 @@ FTR_NAMES = ['tr', 'flip_angle', 'te', 'ti', 'fov']
 VEC_KEYS = ['voxelsize', 'xras', 'yras', 'zras', 'cras']
 ALL_KEYS = ['head', 'valid', 'filename', 'volume'] + VEC_KEYS
 DT_NP = {'u1': np.uint8, 'i2': np.int16, 'i4': np.int32, 'f4': np.float32, 'i1': np.int8, 'u2': np.uint16,
-         'f8': np.float64, 'i8': np.int64, 'u4': np.uint32}
+         'f8': np.float64, 'i8': np.int64, 'u4': np.uint32, 'u8': np.uint64, 'g': np.longdouble, 'f2': np.float16}
 ONE = 0x3F800000
 
 _TMP = None
@@ -220,6 +248,39 @@ def regen():
     nr = h_nr.binaryblock
     def_delta = [int(x) for x in np.frombuffer(nr[o_delta:o_mdc], dtype='>u4')]
     def_ras = list(nr[o_mdc:mf.header_dtype.itemsize])
+    def_good_nr = int.from_bytes(nr[o_good:o_good + 2], 'big')
+    # the one version `chk_version` accepts: `if hdr['version'] != <literal>`
+    mtree = ast.parse(inspect.getsource(mf))
+    chk = [n for n in ast.walk(mtree) if isinstance(n, ast.FunctionDef) and n.name == 'chk_version']
+    if len(chk) != 1:
+        raise Untranslatable('mghformat: expected one chk_version')
+    vcmp = [n for n in ast.walk(chk[0]) if isinstance(n, ast.Compare) and len(n.ops) == 1
+            and isinstance(n.ops[0], ast.NotEq) and isinstance(n.left, ast.Subscript)
+            and isinstance(n.left.slice, ast.Constant) and n.left.slice.value == 'version']
+    if len(vcmp) != 1:
+        raise Untranslatable("chk_version: expected one `hdr['version'] != <literal>` test")
+    version_ok = _int_const(vcmp[0].comparators[0], 'chk_version literal')
+    # `_pack_rgb`: bitshifts = 2 ** np.array([[0], [8], [16]], ...)
+    bs_node = _const_assign(fn['_pack_rgb'], 'bitshifts')
+    if not (isinstance(bs_node, ast.BinOp) and isinstance(bs_node.op, ast.Pow)
+            and isinstance(bs_node.left, ast.Constant) and bs_node.left.value == 2
+            and isinstance(bs_node.right, ast.Call) and isinstance(bs_node.right.func, ast.Attribute)
+            and bs_node.right.func.attr == 'array' and bs_node.right.args
+            and isinstance(bs_node.right.args[0], ast.List)
+            and all(isinstance(e, ast.List) and len(e.elts) == 1 for e in bs_node.right.args[0].elts)):
+        raise Untranslatable('_pack_rgb: bitshifts is not 2 ** np.array([[a], [b], [c]])')
+    pack_shifts = [_int_const(e.elts[0], '_pack_rgb shift') for e in bs_node.right.args[0].elts]
+    ret = [n for n in ast.walk(fn['_pack_rgb']) if isinstance(n, ast.Return)]
+    if len(ret) != 1 or not (isinstance(ret[0].value, ast.Call) and isinstance(ret[0].value.func, ast.Attribute)
+                             and ret[0].value.func.attr == 'dot' and len(ret[0].value.args) == 1
+                             and isinstance(ret[0].value.args[0], ast.Name) and ret[0].value.args[0].id == 'bitshifts'):
+        raise Untranslatable('_pack_rgb: does not return <rgb>.dot(bitshifts)')
+    # `write_morph_data`: i4info = np.iinfo(<literal>); the three range tests use i4info.max / .min
+    ii = _const_assign(fn['write_morph_data'], 'i4info')
+    if not (isinstance(ii, ast.Call) and isinstance(ii.func, ast.Attribute) and ii.func.attr == 'iinfo'
+            and len(ii.args) == 1 and isinstance(ii.args[0], ast.Constant) and isinstance(ii.args[0].value, str)):
+        raise Untranslatable('write_morph_data: i4info is not np.iinfo(<literal>)')
+    morph_info = np.iinfo(ii.args[0].value)
     L = ['/-! GENERATED by harness/props/c19.py regen() from the working tree of nibabel',
          '    (freesurfer/io.py, freesurfer/mghformat.py).  Do not edit: rewritten on every run of `./check C19`.',
          '    Core Lean only. -/',
@@ -241,7 +302,17 @@ def regen():
          f'def defGoodRAS : Nat := {int(h["goodRASFlag"])}',
          '/-- `delta` patterns and `Mdc`+`Pxyz_c` bytes of a header loaded with goodRASFlag = 0 (`_set_affine_default`) -/',
          f'def defDeltaNoRas : List Nat := {def_delta}',
-         f'def defRasBytes : List Nat := {def_ras}', '',
+         f'def defRasBytes : List Nat := {def_ras}',
+         '/-- `goodRASFlag` of a header loaded with goodRASFlag = 0 (`_set_affine_default`) -/',
+         f'def defGoodNoRas : Nat := {def_good_nr}',
+         "/-- the literal of `chk_version`: `hdr['version'] != <literal>` is a HeaderDataError -/",
+         f'def versionOk : Nat := {version_ok}', '',
+         '/-- `_pack_rgb`: `bitshifts = 2 ** np.array([[a], [b], [c]])`, result `rgb.dot(bitshifts)` -/',
+         f'def packShifts : List Nat := {pack_shifts}',
+         '/-- `write_morph_data`: `i4info = np.iinfo(<literal>)` -/',
+         f'def morphCountMax : Int := {int(morph_info.max)}',
+         f'def morphFnumMin : Int := {int(morph_info.min)}',
+         f'def morphFnumMax : Int := {int(morph_info.max)}', '',
          '/-- constants of `read_geometry` / `write_geometry` / `read_morph_data` / `write_morph_data` -/',
          f'def triangleMagic : Nat := {tri}', f'def quadMagic : Nat := {quad}', f'def newQuadMagic : Nat := {nquad}',
          f'def geomMagicBytes : List Nat := {gmb}', f'def morphMagic : Nat := {mmagic}',
@@ -255,7 +326,7 @@ def regen():
     os.makedirs(os.path.dirname(GEN_PATH), exist_ok=True)
     write_if_changed(GEN_PATH, '\n'.join(L))
     return ['Generated.C19.mgh-layout+offsets', 'Generated.C19.type-codes', 'Generated.C19.magic-numbers',
-            'Generated.C19.volume-info-keys']
+            'Generated.C19.volume-info-keys', 'Generated.C19.pack-shifts+morph-limits+version']
 
 
 # =====================================================================================================
@@ -367,7 +438,8 @@ def mk_morph(d, stream='morph'):
 def mk_annot(d, stream='annot'):
     rows = ';'.join(':'.join(str(int(x)) for x in (r + [0])[:5]) for r in d['ctab']) if d['ctab'] else '-'
     names = ';'.join((n.encode('utf-8').hex() or '_') for n in d['names']) if d['names'] else '-'
-    line = (f"C19 annot {int(d['orig'])} {int(d['fill'])} {int(d['ncol'] == 5)} {commas(d['labels'])} "
+    op = 'annotU' if d.get('dt_l', 'i8').startswith('u') else 'annot'     # unsigned label dtype: see PENDING_FINDINGS
+    line = (f"C19 {op} {int(d['orig'])} {int(d['fill'])} {int(d['ncol'] == 5)} {commas(d['labels'])} "
             f"{rows} {names}")
     return Case(line, d, ('annot', _h(d)) if d['labels'] else None, stream)
 
@@ -411,6 +483,12 @@ def mk_annot2(d, stream='annot-chain'):
     return Case(line, d, ('annot2', _h(d)) if d['labels'] else None, stream)
 
 
+def mk_mghresave(d, stream='mgh-resave'):
+    setz = '_' if d['setz'] is None else commas(d['setz'])
+    sets = ';'.join(f'{i}:{v}' for i, v in d['sets']) if d['sets'] else '-'
+    return Case(f"C19 mghresave {d['file']} {setz} {sets}", d, ('mghresave', _h(d)), stream)
+
+
 def mk_zoom(d, stream='zoom'):
     line = f"C19 zoom {commas(d['shape'])} {commas(d['zs'])}"
     return Case(line, d, ('zoom', _h(d)), stream)
@@ -421,7 +499,7 @@ def _h(d):
 
 
 MK = {'geom': mk_geom, 'morph': mk_morph, 'annot': mk_annot, 'mgh': mk_mgh, 'zoom': mk_zoom,
-      'mghload': mk_mghload, 'annot2': mk_annot2}
+      'mghload': mk_mghload, 'annot2': mk_annot2, 'mghresave': mk_mghresave}
 
 
 def case_from_data(d):
@@ -432,16 +510,36 @@ def case_from_data(d):
 # implementation side
 # =====================================================================================================
 
-def vol_dict(vol):
+def vol_dict(vol, kind=None):
+    """the volume_info argument; `kind`: None = OrderedDict of arrays (as read_geometry returns it), 'lists' = plain
+    Python lists / ints / floats, 'dict' = plain dict filled in another key order, 'narrow' = int32 / float32 arrays
+    where the values fit exactly"""
     if vol is None:
         return None
     o = OrderedDict()
-    o['head'] = np.array(vol['head'], dtype=np.int64)
+    ints = [int(x) for x in vol['volume']]
+    flt = {k: [float(x) for x in vol[k]] for k in VEC_KEYS}
+    if kind == 'lists':
+        o['head'] = list(vol['head'])
+        o['valid'] = vol['valid']
+        o['filename'] = vol['filename']
+        o['volume'] = ints
+        for k in VEC_KEYS:
+            o[k] = tuple(flt[k]) if k in ('xras', 'cras') else flt[k]
+        return o
+    o['head'] = np.array(vol['head'], dtype=np.int32 if kind == 'narrow' else np.int64)
     o['valid'] = vol['valid']
     o['filename'] = vol['filename']
-    o['volume'] = np.array([int(x) for x in vol['volume']], dtype=np.int64)
+    i32 = kind == 'narrow' and all(-2 ** 31 <= v < 2 ** 31 for v in ints)
+    o['volume'] = np.array(ints, dtype=np.int32 if i32 else np.int64)
     for k in VEC_KEYS:
-        o[k] = np.array([float(x) for x in vol[k]], dtype=np.float64)
+        with np.errstate(all='ignore'):
+            f32 = kind == 'narrow' and all(float(np.float32(v)) == v for v in flt[k])
+        o[k] = np.array(flt[k], dtype=np.float32 if f32 else np.float64)
+    if kind == 'dict':
+        keys = list(o.keys())
+        keys = keys[3:] + keys[:3][::-1]
+        return {k: o[k] for k in keys}
     return o
 
 
@@ -461,7 +559,7 @@ def impl_geom(case):
     with warnings.catch_warnings():
         warnings.simplefilter('ignore')
         try:
-            io.write_geometry(p, coords, faces, create_stamp=d['stamp'], volume_info=vol_dict(d.get('vol')))
+            io.write_geometry(p, coords, faces, create_stamp=d['stamp'], volume_info=vol_dict(d.get('vol'), d.get('vol_kind')))
         except Exception as e:
             return errname(e)
         with open(p, 'rb') as f:
@@ -490,8 +588,11 @@ def impl_geom(case):
 
 
 def morph_array(d):
-    a = f32_of(d['vals']).astype(np.float64 if d.get('f64', True) else np.float32)
-    return relayout(a.reshape(tuple(d['shape'])), d.get('lay'))
+    dt = d.get('dt_m') or ('f8' if d.get('f64', True) else 'f4')
+    with np.errstate(all='ignore'):
+        a = f32_of(d['vals']).astype(DT_NP[dt])
+    a = relayout(a.reshape(tuple(d['shape'])), d.get('lay'))
+    return a.tolist() if d.get('aslist') else a        # `np.asarray(values)`: array-likes are documented input
 
 
 def impl_morph(case):
@@ -516,7 +617,17 @@ def annot_arrays(d):
     n = len(d['ctab'])
     ctab = np.array(d['ctab'], dtype=np.int64).reshape(n, d['ncol']).astype(DT_NP[d.get('dt_t', 'i8')])
     labels = np.array(d['labels'], dtype=np.int64).astype(DT_NP[d.get('dt_l', 'i8')])
-    return relayout(labels, d.get('lay_l')), relayout(ctab, d.get('lay_t')), list(d['names'])
+    names = list(d['names'])
+    nk = d.get('names_kind')
+    if nk == 'bytes':
+        names = [nm.encode('utf-8') for nm in names]
+    elif nk == 'mixed':
+        names = [(nm.encode('utf-8') if i % 2 else nm) for i, nm in enumerate(names)]
+    elif nk == 'tuple':
+        names = tuple(names)
+    elif nk == 'array':
+        names = np.array(names, dtype=object)
+    return relayout(labels, d.get('lay_l')), relayout(ctab, d.get('lay_t')), names
 
 
 def impl_annot(case):
@@ -645,6 +756,60 @@ def impl_mghload(case):
             f"ras={hx(h.binaryblock[42:90])} ftr={lst(ftr)} data={lst(pats)}")
 
 
+def _full_fields(img, arr):
+    h = img.header
+    bb = h.binaryblock
+    dt2 = h.get_data_dtype()
+    pats = np.ascontiguousarray(arr.ravel(order='F')).astype(dt2.newbyteorder('>')).view(
+        f'>u{dt2.itemsize}' if dt2.itemsize > 1 else 'u1')
+    zooms = pat_of([np.asarray(x) for x in h.get_zooms()])
+    ftr = pat_of([np.asarray(h[k]) for k in FTR_NAMES])
+    return {'dims': [int(x) for x in h['dims']], 'shape': [int(x) for x in img.shape], 'code': int(h['type']),
+            'dof': int.from_bytes(bb[24:28], 'big'), 'good': int.from_bytes(bb[28:30], 'big'), 'zooms': zooms,
+            'ras': bytes(bb[42:90]), 'ftr': ftr, 'data': [int(x) for x in pats]}
+
+
+def _show_full(f):
+    return (f"dims={lst(f['dims'])} shape={lst(f['shape'])} code={f['code']} dof={f['dof']} good={f['good']} "
+            f"zooms={lst(f['zooms'])} ras={hx(f['ras'])} ftr={lst(f['ftr'])} data={lst(f['data'])}")
+
+
+def impl_mghresave(case):
+    """history: load a file laid out by the harness; optional header.set_zooms; footer assignments; save to another
+    file (or over the source); load that"""
+    d = case.data
+    import nibabel as nib
+    raw = bytes.fromhex(d['file'])
+    tag = '%d' % (os.getpid())
+    p1 = os.path.join(tmpdir(), f'src{tag}' + d.get('ext', '.mgh'))
+    p2 = p1 if d.get('same') else os.path.join(tmpdir(), f'dst{tag}' + d.get('ext2', '.mgh'))
+    with open(p1, 'wb') as f:
+        f.write(gzip.compress(raw, 1) if d.get('ext') == '.mgz' else raw)
+    with warnings.catch_warnings():
+        warnings.simplefilter('ignore')
+        try:
+            img = nib.load(p1, mmap=bool(d.get('mmap', True)))
+            if d.get('touch'):                     # the caller looked at the data first (fills the proxy's cache)
+                img.get_fdata()
+            l1 = _full_fields(img, np.array(img.dataobj))
+            if d['setz'] is not None:
+                img.header.set_zooms([float(x) for x in f32_of(d['setz']).astype(np.float64)])
+            for i, v in d['sets']:
+                img.header[FTR_NAMES[i]] = float(f32_of([v]).astype(np.float64)[0])
+            nib.save(img, p2)
+            with open(p2, 'rb') as f:
+                raw2 = f.read()
+            if p2.endswith('.mgz'):
+                raw2 = gzip.decompress(raw2)
+            img2 = nib.load(p2)
+            l2 = _full_fields(img2, np.array(img2.dataobj))
+            del img, img2
+        except Exception as e:
+            return errname(e)
+    case.extra = {'l1': l1, 'l2': l2, 'raw2': raw2}
+    return f"ok l1={{{_show_full(l1)}}} file={hx(raw2)} l2={{{_show_full(l2)}}}"
+
+
 def impl_annot2(case):
     d = case.data
     io = fio()
@@ -670,7 +835,7 @@ def impl_annot2(case):
     return f"ok {hx(raw)} l1={lst(l1_out)} labels={lst(l2)} ctab=[{rows}] names={hexlist(bytes(x) for x in n2)}"
 
 
-IMPL = {'mghload': impl_mghload, 'annot2': impl_annot2, 'geom': impl_geom, 'morph': impl_morph, 'annot': impl_annot, 'mgh': impl_mgh, 'zoom': impl_zoom}
+IMPL = {'mghresave': impl_mghresave, 'mghload': impl_mghload, 'annot2': impl_annot2, 'geom': impl_geom, 'morph': impl_morph, 'annot': impl_annot, 'mgh': impl_mgh, 'zoom': impl_zoom}
 
 
 def impl(case):
@@ -820,6 +985,9 @@ def oracle_annot(case, out):
     n = len(d['ctab'])
     packs = [pack(r) for r in d['ctab']]
     if not out.startswith('ok ') or ' RERR' in out:
+        if d.get('dt_l', 'i8').startswith('u') and out == 'ERR:OverflowError':
+            return ('[unsigned-labels] write_annot raised OverflowError for a label array of an unsigned integer dtype '
+                    f'({d["dt_l"]}): np.max(labels, initial=-1)')
         if n == 0 and d['labels'] and out == 'ERR:IndexError':
             return '[empty-ctab] write_annot raised IndexError for a zero-entry colour table with unlabeled vertices'
         return f'annotation write/read raised for a valid annotation: {out[-60:]}'
@@ -960,6 +1128,53 @@ def oracle_mghload(case, out):
     return None
 
 
+def oracle_mghresave(case, out):
+    """a loaded MGH volume saved again keeps data, shape, voxel sizes, TR and every footer field (+ the edits)"""
+    d = case.data
+    f = d['fields']
+    nd = 4 if f['dims'][3] > 1 else 3
+    if d['setz'] is not None:
+        z = d['setz']
+        if len(z) != nd or (len(z) == 4 and not (_pos_finite(z[3]) or z[3] == 0)):
+            return None
+    if not out.startswith('ok '):
+        return f'load -> save -> load raised for a well-formed MGH file (dims {f["dims"]}, type {f["code"]}): {out}'
+    l1, l2, raw2 = case.extra['l1'], case.extra['l2'], case.extra['raw2']
+    shape = f['dims'][:3] if f['dims'][3] == 1 else f['dims']
+    for nm, l in (('first', l1), ('second', l2)):
+        if l['shape'] != shape:
+            return f'{nm} load: shape {l["shape"]} for dims {f["dims"]}'
+        if l['data'] != f['data']:
+            return f'{nm} load: data differ from the voxels in the original file'
+        if l['code'] != f['code']:
+            return f'{nm} load: type code {l["code"]} != {f["code"]}'
+    if l1['ftr'] != f['ftr']:
+        return f'first load: footer {l1["ftr"]} differs from the file footer {f["ftr"]}'
+    want = list(f['ftr'])
+    if d['setz'] is not None and len(d['setz']) == 4:
+        want[0] = d['setz'][3]
+    for i, v in d['sets']:
+        want[i] = v
+    if l2['ftr'] != want:
+        return f'footer fields after load -> save -> load: {l2["ftr"]} want {want} (file had {f["ftr"]})'
+    if l2['zooms'][:3] != l1['zooms'][:3] or (f['good'] and l2['zooms'][:3] != f['delta']):
+        return f'voxel sizes changed by re-saving: {l2["zooms"][:3]} (first load {l1["zooms"][:3]})'
+    if len(l2['zooms']) != nd or (nd == 4 and l2['zooms'][3] != want[0]):
+        return f'get_zooms {l2["zooms"]} inconsistent with dims {f["dims"]} / TR {want[0]}'
+    if l2['ras'] != l1['ras'] or (f['good'] and l2['ras'].hex() != f['ras']):
+        return 'Mdc / Pxyz_c bytes changed by re-saving'
+    # dof / goodRASFlag are not part of the property statement: compared with the model only (correspondence)
+    # independent decoding of the second file
+    w = {0: 1, 4: 2, 1: 4, 3: 4}[f['code']]
+    nvox = len(f['data'])
+    if len(raw2) != 284 + nvox * w + 20 or list(struct.unpack('>5I', raw2[284 + nvox * w:284 + nvox * w + 20])) != want:
+        return f'footer of the re-saved file not at DATA_OFFSET + data bytes, or wrong (file length {len(raw2)})'
+    if list(struct.unpack('>4i', raw2[4:20])) != f['dims'] or raw2[284:284 + nvox * w] != b''.join(
+            int(x).to_bytes(w, 'big') for x in f['data']):
+        return 're-saved file: dims / data bytes differ from the original'
+    return None
+
+
 def oracle_annot2(case, out):
     d = case.data
     n = len(d['ctab'])
@@ -1000,7 +1215,7 @@ def oracle_zoom(case, out):
     return None
 
 
-ORACLE = {'mghload': oracle_mghload, 'annot2': oracle_annot2, 'geom': oracle_geom, 'morph': oracle_morph, 'annot': oracle_annot, 'mgh': oracle_mgh, 'zoom': oracle_zoom}
+ORACLE = {'mghresave': oracle_mghresave, 'mghload': oracle_mghload, 'annot2': oracle_annot2, 'geom': oracle_geom, 'morph': oracle_morph, 'annot': oracle_annot, 'mgh': oracle_mgh, 'zoom': oracle_zoom}
 
 
 def oracle(case, out):
@@ -1016,6 +1231,8 @@ def signature(case, what):
         n = len(d['ctab'])
         if what.startswith('[zero-packed]') and any(l >= 0 and l < n and pack(d['ctab'][l]) == 0 for l in d['labels']):
             return 'annot:zero-packed-rgb-referenced'
+        if what.startswith('[unsigned-labels]') and d.get('dt_l', 'i8').startswith('u') and all(l >= 0 for l in d['labels']):
+            return 'annot:unsigned-labels-overflow'
         if what.startswith('[empty-ctab]') and n == 0 and d['labels'] and all(l == -1 for l in d['labels']):
             return 'annot:empty-ctab-unlabeled-vertices'
         return 'annot:other'
@@ -1030,6 +1247,8 @@ def in_known_class(d):
     """input classes of the open findings (format limits)"""
     if d['op'] == 'annot':
         n = len(d['ctab'])
+        if d.get('dt_l', 'i8').startswith('u'):
+            return True
         if n == 0 and d['labels']:
             return True
         return any(0 <= l < n and pack(d['ctab'][l]) == 0 for l in d['labels'])
@@ -1054,9 +1273,14 @@ def _shrink_candidates(case):
     for k in ('lay', 'lay_c', 'lay_f', 'lay_l', 'lay_t'):
         if d.get(k, 'C') != 'C':
             yield MK[op]({**d, k: 'C'}, case.stream)
-    for k, v in (('dt_c', 'f8'), ('dt_f', 'i8'), ('dt_l', 'i8'), ('dt_t', 'i8')):
-        if d.get(k, v) != v and True:
+    for k, v in (('dt_c', 'f8'), ('dt_f', 'i8'), ('dt_l', 'i8'), ('dt_t', 'i8'), ('dt_m', 'f8')):
+        if d.get(k, v) != v and k in d:
             yield MK[op]({**d, k: v}, case.stream)
+        if k == 'dt_l' and d.get(k, v).startswith('u') and d.get(k) != 'u1' and all(0 <= l < 256 for l in d['labels']):
+            yield MK[op]({**d, k: 'u1'}, case.stream)
+    for k in ('names_kind', 'vol_kind', 'aslist'):
+        if d.get(k):
+            yield MK[op]({**d, k: None}, case.stream)
     if op == 'annot':
         if len(d['labels']) > 1:
             for i in range(len(d['labels'])):
@@ -1210,16 +1434,39 @@ def rand_vol(rng, rich=False):
 LAY_W = ['C', 'C', 'C', 'F', 'F', 'T', 'strided', 'rev', 'swap', 'Fswap']
 
 
+INT_RANGE = {'i8': (-2 ** 63, 2 ** 63), 'i4': (-2 ** 31, 2 ** 31), 'i2': (-2 ** 15, 2 ** 15), 'i1': (-128, 128),
+             'u1': (0, 256), 'u2': (0, 2 ** 16), 'u4': (0, 2 ** 32), 'u8': (0, 2 ** 64)}
+
+
 def int_dt(rng, vals, choices=('i8', 'i8', 'i4', 'i2')):
+    """an integer dtype for `vals` (every value must be representable: the caller's array, not a cast of ours)"""
     dt = rng.choice(choices)
-    lim = {'i8': 63, 'i4': 31, 'i2': 15, 'i1': 7}[dt]
-    return dt if all(-2 ** lim <= v < 2 ** lim for v in vals) else 'i8'
+    lo, hi = INT_RANGE[dt]
+    return dt if all(lo <= v < hi for v in vals) else 'i8'
+
+
+def float_dt(rng, pats):
+    """a dtype that holds the float32 values `pats` exactly: float32, float64, long double, and - when they fit -
+    float16 or an integer dtype (vertex coordinates in voxel units, integer-valued overlays)"""
+    dt = rng.choice(['f8', 'f8', 'f4', 'f4', 'g', 'f2', 'i2', 'i4', 'u1', 'i8'])
+    if dt in ('f8', 'f4', 'g'):
+        return dt
+    with np.errstate(all='ignore'):
+        v = f32_of(pats).astype(np.float32)
+        if not np.all(np.isfinite(v)):
+            return 'f8'
+        back = v.astype(DT_NP[dt]).astype(np.float32)
+    same = back.tobytes() == v.tobytes()       # -0.0 does not survive an integer dtype: bit compare
+    return dt if same else 'f4'
 
 
 def gen_geom(rng, big=False):
     nv = rng.choice([0, 0, 1, 2, 3, 4, 5, 8, 13]) if not big else rng.randrange(50, 400)
     nf = rng.choice([0, 0, 1, 2, 3, 5, 9]) if not big else rng.randrange(50, 600)
-    coords = [rand_f32(rng) for _ in range(3 * nv)]
+    if rng.random() < 0.25:       # coordinates in voxel units / small integers: representable in narrow dtypes
+        coords = pat_of([float(rng.choice([0, 1, 2, 127, 255, rng.randrange(-300, 300)])) for _ in range(3 * nv)])
+    else:
+        coords = [rand_f32(rng) for _ in range(3 * nv)]
     fr = rng.random()
     if nv and fr < 0.7:
         faces = [rng.randrange(0, nv) for _ in range(3 * nf)]
@@ -1230,8 +1477,9 @@ def gen_geom(rng, big=False):
     has_vol = rng.random() < 0.5
     return {'op': 'geom', 'meta': rng.random() < 0.8, 'stamp': stamp, 'nv': nv, 'nf': nf, 'coords': coords,
             'faces': faces, 'vol': rand_vol(rng, rich=rng.random() < 0.5) if has_vol else None,
-            'lay_c': rng.choice(LAY_W), 'lay_f': rng.choice(LAY_W), 'dt_c': rng.choice(['f8', 'f8', 'f4']),
-            'dt_f': int_dt(rng, faces)}
+            'lay_c': rng.choice(LAY_W), 'lay_f': rng.choice(LAY_W), 'dt_c': float_dt(rng, coords),
+            'dt_f': int_dt(rng, faces, ('i8', 'i8', 'i4', 'i4', 'i2', 'i1', 'u1', 'u2', 'u4', 'u8')),
+            'vol_kind': rng.choice([None, None, 'lists', 'dict', 'narrow'])}
 
 
 def gen_geom_edge(rng):
@@ -1269,8 +1517,16 @@ def gen_morph(rng, big=False):
         n = int(np.prod(shape)) if shape else 1
     fnum = rng.choice([0, 0, 0, 1, 327680, -1, 2 ** 31 - 1, -2 ** 31, rng.randrange(-2 ** 31, 2 ** 31),
                        rng.choice([2 ** 31, -2 ** 31 - 1, rng.randrange(-2 ** 33, 2 ** 33)])])
-    return {'op': 'morph', 'shape': shape, 'vals': [rand_f32(rng) for _ in range(n)], 'fnum': fnum,
-            'f64': rng.random() < 0.5, 'lay': rng.choice(LAY_W)}
+    if rng.random() < 0.25:
+        vals = pat_of([float(rng.choice([0, 1, 2, 127, 255, rng.randrange(-300, 300)])) for _ in range(n)])
+    else:
+        vals = [rand_f32(rng) for _ in range(n)]
+    dt_m = float_dt(rng, vals)
+    aslist = rng.random() < 0.15 and n > 0        # `.tolist()` of an empty array does not keep its shape
+    if aslist and (dt_m not in ('f8', 'i8') or not all(is_qnan_or_num(p) for p in vals)):
+        dt_m = 'f8'
+    return {'op': 'morph', 'shape': shape, 'vals': vals, 'fnum': fnum,
+            'f64': dt_m != 'f4', 'dt_m': dt_m, 'lay': rng.choice(LAY_W), 'aslist': aslist}
 
 
 def distinct_packs(rng, n, zero_p):
@@ -1312,22 +1568,30 @@ def gen_annot(rng, zero_p=0.08, big=False, narrow=False):
         names.append(rand_text(rng, 1, 200) if r < 0.3 else (rand_text(rng, 0, 12) if r < 0.9 else ''))
     names = [nm.rstrip('\0') for nm in names]
     flat = [v for r in ctab for v in r]
-    dt_t = rng.choice(['i8', 'i8', 'i4', 'u4', 'f8'])
-    if dt_t == 'u4' and any(v < 0 for v in flat):
+    dt_t = rng.choice(['i8', 'i8', 'i4', 'u4', 'u8', 'f8', 'f4'])
+    if dt_t in ('u4', 'u8') and any(v < 0 for v in flat):
         dt_t = 'i8'
+    if dt_t == 'f4' and any(abs(v) >= 2 ** 24 for v in flat):
+        dt_t = 'f8'
     if narrow or (fill and ncol == 4 and rng.random() < 0.3):
         # tables of a narrow integer dtype (uint8 RGBA is the natural one); pre-fix `_pack_rgb` overflowed there
         fill, ncol, ctab = True, 4, [r[:4] for r in ctab]
-        dt_t = rng.choice(['u1', 'u1', 'i2', 'u2'])
+        dt_t = rng.choice(['u1', 'u1', 'i2', 'u2', 'i1'])
+        if dt_t == 'i1' and any(v > 127 for r in ctab for v in r):
+            dt_t = 'u1'
+    dt_l = int_dt(rng, labels + [len(ctab)], ('i8', 'i8', 'i4', 'i2', 'i1', 'u1', 'u2', 'u4', 'u8'))
     return {'op': 'annot', 'orig': rng.random() < 0.15, 'fill': fill, 'ncol': ncol, 'labels': labels,
             'ctab': ctab, 'names': names, 'lay_l': rng.choice(LAY_W), 'lay_t': rng.choice(LAY_W),
-            'dt_l': int_dt(rng, labels + [len(ctab)], ('i8', 'i8', 'i4', 'i2', 'i1')), 'dt_t': dt_t}
+            'dt_l': dt_l, 'dt_t': dt_t,
+            'names_kind': rng.choice([None, None, None, 'bytes', 'mixed', 'tuple', 'array'])}
 
 
 def gen_annot2(rng):
     """history: write, read, recolour ctab[:, :3] of what was read (5th column goes stale), write again, read"""
     d = gen_annot(rng, zero_p=0.0, big=rng.random() < 0.02)
     n = len(d['ctab'])
+    if d['dt_l'].startswith('u'):
+        d['dt_l'] = 'i8'
     if n == 0:
         d['labels'] = []
     if not d['fill'] and d['ncol'] == 5:
@@ -1416,6 +1680,81 @@ def gen_mghload(rng):
     fields = {'valid': valid, 'dims': dims, 'code': code, 'good': good, 'delta': delta, 'ras': bytes(ras).hex(),
               'ftr': ftr, 'data': data}
     return {'op': 'mghload', 'file': raw.hex(), 'ext': rng.choice(['.mgh', '.mgh', '.mgz']), 'kind': k, 'fields': fields}
+
+
+def rand_mod_f32(rng):
+    """a finite float32 of moderate magnitude (no NaN/inf, |x| < 2^20 or 0)"""
+    r = rng.random()
+    if r < 0.2:
+        return rng.choice([0, 0x80000000, ONE, 0xBF800000, 0x3F000000])
+    return pat_of([rng.randrange(-2 ** 20, 2 ** 20) / rng.choice([1.0, 4096.0, 3.0, 1000.0])])[0]
+
+
+def rand_mod_pos_f32(rng):
+    return rng.choice([ONE, 0x40000000, 0x3F000000, 0x3E99999A, 0x40490FDB, 0x3DCCCCCD,
+                       pat_of([rng.randrange(1, 5000) / rng.choice([1, 3, 7, 10, 64, 1000])])[0]])
+
+
+def gen_mghresave(rng):
+    """a well-formed MGH file as some other program wrote it (non-default dof / goodRASFlag, all footer fields
+    non-zero, partial or absent footer, tags after the footer) + the edits applied between load and save"""
+    ndim4 = rng.random() < 0.5
+    dims = [rng.choice([1, 1, 2, 3]) for _ in range(3)] + [rng.choice([2, 3]) if ndim4 else 1]
+    dt = rng.choice(['u1', 'i2', 'i4', 'f4'])
+    code = {'u1': 0, 'i2': 4, 'i4': 1, 'f4': 3}[dt]
+    w = np.dtype(DT_NP[dt]).itemsize
+    n = int(np.prod(dims))
+    if dt == 'f4':
+        data = [rand_f32(rng, nan_ok=False) for _ in range(n)]
+    else:
+        data = [rng.choice([0, 1, 256 ** w - 1, 256 ** w // 2, rng.getrandbits(8 * w)]) for _ in range(n)]
+    delta = [rand_mod_pos_f32(rng) for _ in range(3)]
+    if rng.random() < 0.4:
+        ras = b''.join(struct.pack('>I', rand_mod_f32(rng)) for _ in range(12))
+    else:
+        ras = ras_bytes({'zooms': delta, 'perm': rng.randrange(6), 'shape': dims[:3],
+                         'trans': [rng.randrange(-9, 9) for _ in range(3)]})
+    r = rng.random()
+    if r < 0.15:
+        ftr = [0] * 5
+    elif r < 0.3:
+        ftr = [0x450FC000, 0x3E0EFA35, 0x403D70A4, 0x44898000, 0x43800000]
+    else:
+        ftr = [rng.choice([0, rand_pos_f32(rng), rand_mod_f32(rng), rng.getrandbits(32)]) for _ in range(5)]
+    ftr_bytes = struct.pack('>5I', *ftr)
+    good = rng.choice([1, 1, 1, 0, 0, 2, 255, 256, 65535, 32768])
+    dof = rng.choice([0, 0, 1, 7, 2 ** 31, 2 ** 32 - 1, rng.getrandbits(32)])
+    junk = b''
+    k = rng.random()
+    if k < 0.2:                                    # footer partly / wholly absent: zero padded on load
+        cut = rng.randrange(0, 20)
+        ftr_bytes = ftr_bytes[:cut]
+        ftr = list(struct.unpack('>5I', ftr_bytes + b'\0' * (20 - cut)))
+    elif k < 0.45:                                 # FreeSurfer writes tags after the footer
+        junk = bytes(rng.getrandbits(8) for _ in range(rng.randrange(1, 40)))
+    raw = build_mgh(dims, code, good, delta, ras, data, w, ftr_bytes, dof=dof, junk=junk)
+    nd = 4 if ndim4 else 3
+    loaded_delta = delta if good else [ONE] * 3
+    setz = None
+    r = rng.random()
+    if r < 0.45:
+        setz = list(loaded_delta)
+        if nd == 4:
+            setz.append(rng.choice([0, rand_mod_pos_f32(rng), 0x44FA0000, 0x40200000]))
+        if r < 0.03:
+            setz = setz + [ONE]                    # too many zooms
+        elif r < 0.06 and nd == 4:
+            setz[3] = rng.choice([0xBF800000, 0x80000001])
+    sets = []
+    for _ in range(rng.choice([0, 0, 0, 1, 2, 4])):
+        i = rng.randrange(5)
+        v = rng.choice([0, 0x80000000, rand_mod_pos_f32(rng), rand_mod_pos_f32(rng) | 0x80000000])
+        sets.append([i, v])
+    fields = {'dims': dims, 'code': code, 'good': good, 'dof': dof, 'delta': delta, 'ras': bytes(ras).hex(),
+              'ftr': ftr, 'data': data}
+    return {'op': 'mghresave', 'file': raw.hex(), 'ext': rng.choice(['.mgh', '.mgh', '.mgz']),
+            'ext2': rng.choice(['.mgh', '.mgh', '.mgz']), 'same': rng.random() < 0.15, 'mmap': rng.random() < 0.7,
+            'touch': rng.random() < 0.3, 'setz': setz, 'sets': sets, 'fields': fields}
 
 
 def gen_annot_edge(rng):
@@ -1602,6 +1941,8 @@ def cases(rng, tier):
         out.append(mk_annot2(gen_annot2(rng)))
     for _ in range(500 * mult):
         out.append(mk_mghload(gen_mghload(rng)))
+    for _ in range(600 * mult):
+        out.append(mk_mghresave(gen_mghresave(rng)))
     return out
 
 
